@@ -327,6 +327,10 @@ VerdictW(W, adds, e, cl, pk, res, dep, anyErr, refusedAfter, bundleOK, x) ==
       cnt(name, key) == Cardinality({ i \in DOMAIN cl : cl[i][1] = name /\ SubSeq(cl[i], 2, 1 + Len(key)) = key })
       clean == ~anyErr
       faultfree == NoFailCalls(cl)
+      \* an error although nothing in the world calls for one
+      expectErr == \E a \in closure : \/ (a.src.k = "reg" /\ RegTargetW(W, a).t = "nomatch")
+                                       \/ (a.src.k = "rem" /\ a \in DOMAIN W.deps /\ (W.deps[a].diag = "err" \/ DepLocalErr(a, W.deps[a].deps)))
+      spurious == anyErr /\ faultfree /\ ~expectErr
       anKeys == { SubSeq(cl[i], 2, 4) : i \in { j \in DOMAIN cl : cl[j][1] = "Analyze" } }
       w14 == IF ~faultfree THEN {} ELSE
              { <<"fetch", p>> : p \in { q \in Pkgs : cnt("Fetch", <<q>>) > 1 \/ (clean /\ q \in { a.src.pkg : a \in remNeeded } /\ cnt("Fetch", <<q>>) # 1) } }
@@ -336,14 +340,15 @@ VerdictW(W, adds, e, cl, pk, res, dep, anyErr, refusedAfter, bundleOK, x) ==
              \cup { <<"not-analyzed", a.src.pkg, a.src.sub, a.f>> : a \in { b \in remNeeded : clean /\ cnt("Analyze", <<b.src.pkg, b.src.sub, b.f>>) # 1 } }
              \cup (IF EventsOK(e) THEN {} ELSE { <<"events-not-bracketed">> })
       \* C08: at a clean close everything required is present and every lookup answers as expected
-      w08 == IF ~(clean /\ bundleOK) THEN {} ELSE
+      w08 == IF spurious /\ regNeeded = {} THEN { <<"build-fails-without-cause">> } ELSE IF ~(clean /\ bundleOK) THEN {} ELSE
              { <<"package-missing", a.src.pkg>> : a \in { b \in remNeeded : b.src.pkg \notin DOMAIN pk } }
              \cup { <<"registry-version-missing", a.src.rpkg>> : a \in { b \in regNeeded : RegTargetW(W, b).t = "ok" /\ <<b.src.rpkg, RegTargetW(W, b).v>> \notin DOMAIN res } }
              \cup { <<"registry-target-differs", a.src.rpkg>> : a \in { b \in regNeeded : RegTargetW(W, b).t = "ok" /\ <<b.src.rpkg, RegTargetW(W, b).v>> \in DOMAIN res
                                                                     /\ res[<<b.src.rpkg, RegTargetW(W, b).v>>] # W.src[<<b.src.rpkg, RegTargetW(W, b).v>>] } }
              \cup { <<"lookup", x.lookup_bad[i]>> : i \in DOMAIN x.lookup_bad }
       \* C17: selection and deprecation
-      w17 == { <<"no-error-for-unsatisfiable", a.src.rpkg>> : a \in { b \in regNeeded : RegTargetW(W, b).t = "nomatch" /\ clean } }
+      w17 == (IF spurious /\ regNeeded # {} THEN { <<"error-although-an-allowed-version-is-offered">> } ELSE {}) \cup
+             { <<"no-error-for-unsatisfiable", a.src.rpkg>> : a \in { b \in regNeeded : RegTargetW(W, b).t = "nomatch" /\ clean } }
              \cup { <<"deprecation-differs", y[1], y[2]>> : y \in { z \in DOMAIN res : z \in DOMAIN dep /\ z[1] \in DOMAIN W.vers
                         /\ \E q \in Range(W.vers[z[1]]) : q.v = z[2] /\ q.dep # dep[z] } }
              \cup { <<"version-not-offered", y[1], y[2]>> : y \in { z \in DOMAIN res : z[1] \in DOMAIN W.vers /\ z[2] \notin { q.v : q \in Range(W.vers[z[1]]) } } }
